@@ -155,6 +155,7 @@ def plan(exp, tier):
         u = vec_unit(exp, 'c09_' + layout, [VEC['Vec2'], VEC['Vec3'], VEC['Vec4']], mats=MATS)
         for nm in ('Vec2', 'Vec3', 'Vec4'):
             veccore.add_spatial_basic(u, VEC[nm])
+        veccore.add_unit_ctors(u)
         for m2 in (mat(4, 'rows'), mat(4, 'cols')):
             matcore.add_mat_struct(u, m2)
         for m2 in (mat(4, 'rows'), mat(4, 'cols')):
